@@ -21,7 +21,7 @@ PROPERTY = "C02"
 LEVEL = "exploration"
 MANIFEST = {
     "technique": "bounded-exhaustive enumeration: full impulse-basis reciprocity matrix per configuration over the complete halo x modes x profile x grid x precision lattice, differential oracle (forward run)",
-    "text": "All (nx*ny)^2 (tower cell, source cell) pairs are compared between footprint mode and the forward run for every configuration of a finite lattice that contains commensurate, half-commensurate and incommensurate halos, the default halo, three mode counts, four profile sets, two non-square grids with dx != dy and both precisions. By linearity the impulse basis decides the statement for all surface-flux fields.",
+    "text": "All (nx*ny)^2 (tower cell, source cell) pairs are compared between footprint mode and the forward run for every configuration of a finite lattice that contains commensurate, half-commensurate and incommensurate halos, the default halo, three mode counts, four profile sets, non-square grids with dx != dy of even, odd and mixed parity (odd sizes with clamped mode counts) and both precisions. By linearity the impulse basis decides the statement for all surface-flux fields.",
     "note": "Tolerance 1e-9 of the field maximum in double and 2e-5 in single precision (shooting amplifies rounding; alphabets keep sum(lambda dz) small). Real-valued parameters are covered on the listed lattice only. Profiles come from the harness' own MOST formulas.",
 }
 
@@ -35,10 +35,15 @@ def configs(tier):
         # one single-precision and one other-grid representative per halo
         for h in sl.HALOS:
             yield {"prof": "mostm_s", "grid": sl.GRIDS[1][0], "dom": sl.GRIDS[1][1], "halo": h, "modes": "full", "prec": "single"}
+        # odd grid sizes (odd padded sizes, clamped mode counts)
+        for k, (g, h) in enumerate(itertools.product(sl.ODD_GRIDS, (0.0, None, 13.0, 20.0))):
+            yield {"prof": sl.PROFILE_SETS[k % 4], "grid": g[0], "dom": g[1], "halo": h, "modes": [64, 64], "prec": "double"}
     else:
         modes = ("full", [4, 4], [64, 64], [6, 4])
         for p, g, h, m, pr in itertools.product(sl.PROFILE_SETS, sl.GRIDS, sl.HALOS + (52.0, 100.0), modes, ("double", "single")):
             yield {"prof": p, "grid": g[0], "dom": g[1], "halo": h, "modes": m, "prec": pr}
+        for p, g, h, pr in itertools.product(sl.PROFILE_SETS, sl.ODD_GRIDS, sl.HALOS + (52.0,), ("double", "single")):
+            yield {"prof": p, "grid": g[0], "dom": g[1], "halo": h, "modes": [64, 64], "prec": pr}
 
 
 def case_reciprocity(case):
